@@ -73,6 +73,20 @@ def run(chk):
                         return v is not None and v.get("init") is not None and is_call_stack(v["init"], depth + 1)
                     return False
                 pushes = [x for x in walk(h["body"]) if x.get("k") == "call" and x.get("name") in ("push_back", "emplace_back") and is_call_stack(x.get("obj"))]
+                # the append may live in a small member helper that is handed the caught error: `record_call_site(ee);`
+                via_helper = helper_pushes(prog, f, h)
+                if not pushes and len(via_helper) == 1:
+                    call_, hfn_, push_ = via_helper[0]
+                    hl_ = ref_inits(hfn_)
+                    this_in_helper = any(y.get("k") == "this" or (y.get("k") == "ref" and y.get("rk") == "local" and hl_.get(y.get("vid")) is not None and
+                                                                any(z.get("k") == "this" for z in walk(hl_[y["vid"]].get("init") or {})))
+                                         for y in walk(push_["args"][0]))
+                    top_ = h["body"].get("s", []) if h["body"].get("k") == "block" else [h["body"]]
+                    reth_ = [x for x in walk(h["body"]) if x.get("k") == "throw" and x.get("rethrow")]
+                    unc_ = any(call_ is s_ or strip_casts(s_) is call_ or (isinstance(s_.get("e"), dict) and strip_casts(s_["e"]) is call_) for s_ in top_) and reth_ and any(reth_[0] is s_ for s_ in top_)
+                    ok = len(reth_) == 1 and this_in_helper and call_["l"] <= reth_[0]["l"] and bool(unc_)
+                    why = "append through helper %s: pushes *this: %s, unconditional: %s" % (hfn_["name"], this_in_helper, bool(unc_))
+                    continue
                 reth = [x for x in walk(h["body"]) if x.get("k") == "throw" and x.get("rethrow")]
                 this_arg = pushes and any(y.get("k") == "this" for y in walk(pushes[0]["args"][0]))
                 top = h["body"].get("s", []) if h["body"].get("k") == "block" else [h["body"]]
@@ -192,6 +206,37 @@ def run(chk):
                 flat = True
             detail += " %s" % a
         okb = deep and flat
+    if not okb:
+        # the same choice written with conditional expressions: one construction whose start line/column are
+        # `has_children ? first_child.start.X : cursor.X` (possibly through once-initialised locals)
+        gl = ref_inits(g)
+
+        def expand(e, depth=0):
+            e = strip_casts(e)
+            if e.get("k") == "ref" and e.get("rk") == "local" and depth < 3:
+                v = gl.get(e.get("vid"))
+                if v is not None and v.get("init") is not None and not any(y.get("k") == "assign" and strip_casts(y["lhs"]).get("vid") == e.get("vid") for y in walk(g["body"])):
+                    return expand(v["init"], depth + 1)
+            return e
+
+        def cond_parts(e):
+            e = expand(e)
+            if e.get("k") != "cond":
+                return None
+            c = expr_str(prog, g, expand(e["c"])).replace(" ", "")
+            nonempty_when_true = "t_match_start" in c and "size()" in c and "!=" in c
+            nonempty_when_false = "t_match_start" in c and "size()" in c and "==" in c and "!=" not in c
+            if not (nonempty_when_true or nonempty_when_false):
+                return None
+            a_, b_ = (e["a"], e["b"]) if nonempty_when_true else (e["b"], e["a"])
+            return expr_str(prog, g, a_).replace(" ", ""), expr_str(prog, g, b_).replace(" ", "")
+        for n in [x for x in walk(g["body"]) if x.get("k") == "construct" and "Parse_Location" in prog.T(g, x.get("t")) and len(x.get("args", [])) >= 5]:
+            a0 = expr_str(prog, g, n["args"][0])
+            l_, c_ = cond_parts(n["args"][1]), cond_parts(n["args"][2])
+            e3, e4 = expr_str(prog, g, n["args"][3]).replace(" ", ""), expr_str(prog, g, n["args"][4]).replace(" ", "")
+            if l_ and c_ and "m_filename" in a0 and "t_match_start" in l_[0] and "location.start.line" in l_[0] and "m_position.line" in l_[1] and \
+                    "t_match_start" in c_[0] and "location.start.column" in c_[0] and "m_position.col" in c_[1] and "m_position.line" in e3 and "m_position.col" in e4:
+                okb = True
     r3.ob("build_match: an inner node starts where its first child starts (current cursor when it has none) and ends at the cursor", okb, g.where, g["q"], "Parse_Location constructions:" + detail[:300])
     # file name of the parse in progress
     pis = [f for f in pf if f["name"] == "parse_internal"]
@@ -276,6 +321,24 @@ def run(chk):
             r6.ob(ident, ok, "%s:%d" % (f["file"], n["l"]), f["q"], why + ": an error raised inside the rebuilt construct is reported at another construct's position")
     r6.require(10, "node constructions in the optimizer")
 
+    # ------------------------------------------------------------------ R20.6 = C10 R10.1: the error object that carries the positions is the one delivered
+    if not getattr(chk, "nested", False):
+        from .. import core
+        from . import c10
+        r6 = chk.rule("R20.6", "no handler between the failing node and the caller swallows or replaces an eval_error in flight (C10 R10.1 re-decided): the object that "
+                               "accumulated the call stack is the one the caller receives",
+                      "the reported position is the failing construct's, and the call stack lists every enclosing call site: an error re-created further out would carry the outer position and an empty stack")
+        sub = core.Check("C10", tier=chk.tier)
+        sub.prog = prog
+        sub.nested = True
+        c10.run(sub)
+        sr = [r for r in sub.rules if r.rid == "R10.1"]
+        r6.anchor(bool(sr), "C10 R10.1")
+        for v in [v for v in sub.violations if v["rule"] == "R10.1"]:
+            r6.ob("R10.1: %s" % v["instance"], False, v["where"], v["function"], v["detail"])
+        r6.ob("C10 R10.1 decided (%d obligations)" % sr[0].obligations, True, "", "", "")
+        r6.require(1, "rule")
+
     # ------------------------------------------------------------------ R20.5
     r5 = chk.rule("R20.5", "Position::operator++ starts a new line at column 1 after '\\n' and advances the column otherwise; operator-- is its inverse",
                   "line and column are 1-based coordinates of the byte the cursor points at")
@@ -357,3 +420,24 @@ def run(chk):
     r5.note("%d cursor retreats (-- / -=) in the parser; each undoes the advance made just before it, so the single remembered column belongs to the line break re-crossed (bounds of these retreats: C01 R1.3)" % nret)
     r5.require(3, "obligations")
 
+
+def helper_pushes(prog, f, handler):
+    """[(call node in the handler, helper function, push node)] for helpers of the same class that are handed the caught error and append to its call stack
+    unconditionally (a top-level statement of the helper)"""
+    out = []
+    hv = handler.get("vid")
+    for c in walk(handler["body"]):
+        if c.get("k") != "call" or c.get("fn") is None or c.get("name") in ("push_back", "emplace_back"):
+            continue
+        if not any(x.get("k") == "ref" and x.get("vid") == hv for a in c.get("args") or [] for x in walk(a)):
+            continue
+        g = prog.fn_by_id(f, c["fn"])
+        if g is None or not g.get("body") or g.get("cls") != f.get("cls"):
+            continue
+        top = g["body"].get("s", []) if g["body"].get("k") == "block" else [g["body"]]
+        for st in top:
+            e = st.get("e") if st.get("k") in ("expr", "exprstmt") and isinstance(st.get("e"), dict) else st
+            e = strip_casts(e)
+            if e.get("k") == "call" and e.get("name") in ("push_back", "emplace_back") and "call_stack" in expr_str(prog, g, e.get("obj") or {}):
+                out.append((c, g, e))
+    return out
